@@ -4,8 +4,8 @@ import Vflow.Proofs.PacketSpec
 and the one dissector theorem covering every layer combination
 
 `AHeader` = optional Ethernet layer (absent when the sFlow header protocol is 11 / 12, i.e. the sampled
-octets start at the IPv4 / IPv6 header) × network layer (IPv4 with IHL = 5 | IPv6) × transport layer
-(TCP | UDP | ICMP / ICMPv6).  `encodeHeader` lays the fields out at their IEEE 802.3 / 802.1Q, RFC 791,
+octets start at the IPv4 / IPv6 header) × network layer (IPv4 with any options the header length field
+can announce, IHL 5 … 15 | IPv6) × transport layer (TCP | UDP | ICMP / ICMPv6).  `encodeHeader` lays the fields out at their IEEE 802.3 / 802.1Q, RFC 791,
 RFC 8200, RFC 793, RFC 768, RFC 792 / 4443 positions, composing the per-layer encoders of
 `Vflow.Proofs.PacketSpec`.
 -/
@@ -22,7 +22,9 @@ structure AEth where
   tag : Option (Nat × Nat)
 
 inductive ANet where
-  | v4 (h : IPv4Hdr)
+  /-- IPv4 header fields and the option octets that follow the destination address (0 … 40 octets, a
+  multiple of four: `OptsWF`); the packet struct has no field for them, they only move the transport header -/
+  | v4 (h : IPv4Hdr) (opts : Bytes)
   | v6 (h : IPv6Hdr)
 
 inductive ATrans where
@@ -38,19 +40,19 @@ structure AHeader where
   trans : ATrans
 
 def ANet.etherType : ANet → Nat
-  | .v4 _ => 0x0800
+  | .v4 _ _ => 0x0800
   | .v6 _ => 0x86DD
 
 /-- the protocol / next-header field of the network layer -/
 def ANet.proto : ANet → Nat
-  | .v4 h => h.protocol
+  | .v4 h _ => h.protocol
   | .v6 h => h.nextHeader
 
 /-- the sFlow header protocol the sampled header is announced with -/
 def protoOf (h : AHeader) : Nat :=
   match h.eth, h.net with
   | some _, _ => 1
-  | none, .v4 _ => 11
+  | none, .v4 _ _ => 11
   | none, .v6 _ => 12
 
 def encEthL (e : AEth) (et : Nat) : Bytes :=
@@ -59,7 +61,7 @@ def encEthL (e : AEth) (et : Nat) : Bytes :=
   | some (prio, vid) => encEthVlan e.dst e.src (prio * 4096 + vid) et
 
 def encNet : ANet → Bytes
-  | .v4 h => encIPv4 h
+  | .v4 h opts => encIPv4 h opts
   | .v6 h => encIPv6 h
 
 def encTrans : ATrans → Bytes
@@ -82,7 +84,7 @@ def AEth.WF (e : AEth) : Prop :=
     | some (prio, vid) => prio < 16 ∧ vid < 4096
 
 def ANet.WF : ANet → Prop
-  | .v4 h => h.WF
+  | .v4 h opts => h.WF ∧ OptsWF opts
   | .v6 h => h.WF
 
 /-- field ranges of the transport header; TCP reserved bits are 0 (the struct reports `Reserved: 0`),
@@ -112,8 +114,9 @@ def expEth (e : AEth) (et : Nat) : L2 :=
       | none => 0
       | some (_, vid) => vid }
 
+/-- the IPv4 options do not appear in the decoded packet -/
 def expNet : ANet → L3
-  | .v4 h => .v4 h
+  | .v4 h _ => .v4 h
   | .v6 h => .v6 h
 
 /-- `RestHeader` of the ICMP struct is `b[4:]`: everything after the checksum up to the end of the
@@ -163,11 +166,11 @@ theorem decodeNext_enc (t : ATrans) (p : Nat) (payload : Bytes) (hwf : t.WF) (hp
 theorem dissectNet_enc (l2 : L2) (n : ANet) (t : ATrans) (payload : Bytes) (hn : n.WF) (ht : t.WF)
     (hp : t.protoOK n.proto) :
     (match n with
-     | .v4 _ => dissectV4 l2 (encNet n ++ (encTrans t ++ payload))
+     | .v4 _ _ => dissectV4 l2 (encNet n ++ (encTrans t ++ payload))
      | .v6 _ => dissectV6 l2 (encNet n ++ (encTrans t ++ payload))) = .ok ⟨l2, expNet n, expTrans t payload⟩ := by
   cases n with
-  | v4 h =>
-    simp only [encNet, dissectV4, decodeIPv4_enc h _ hn, ok_bind, expNet,
+  | v4 h opts =>
+    simp only [encNet, dissectV4, decodeIPv4_enc h opts _ hn.1 hn.2, ok_bind, expNet,
       decodeNext_enc t h.protocol payload ht hp, pure_eq]
   | v6 h =>
     simp only [encNet, dissectV6, decodeIPv6_enc h _ hn, ok_bind, expNet,
@@ -188,7 +191,8 @@ theorem decodeEthernet_encL (e : AEth) (et : Nat) (rest : Bytes) (he : e.WF) (h1
     simpa only [encEthL, expEth, hv] using this
 
 /-- **every combination at once**: for every well-formed abstract header — Ethernet with or without an
-802.1Q tag, or none (header protocol 11 / 12); IPv4 or IPv6; TCP, UDP or ICMP / ICMPv6 — and every
+802.1Q tag, or none (header protocol 11 / 12); IPv4 with 0 … 40 octets of options of any content, or IPv6;
+TCP, UDP or ICMP / ICMPv6 — and every
 trailing payload, dissecting the encoded header under its header protocol yields exactly the expected
 packet: each output field is the abstract field that was laid out at its RFC position. -/
 theorem dissect_encodeHeader (h : AHeader) (payload : Bytes) (hwf : wfHeader h) :
@@ -198,8 +202,8 @@ theorem dissect_encodeHeader (h : AHeader) (payload : Bytes) (hwf : wfHeader h) 
   cases eth with
   | none =>
     cases net with
-    | v4 h4 =>
-      have := dissectNet_enc {} (.v4 h4) trans payload hn ht hp
+    | v4 h4 opts =>
+      have := dissectNet_enc {} (.v4 h4 opts) trans payload hn ht hp
       simpa only [encodeHeader, protoOf, dissect, expectedPacket, List.nil_append, List.append_assoc,
         show ¬ ((11 : Nat) = 1) by decide, if_false, if_true] using this
     | v6 h6 =>
@@ -209,8 +213,8 @@ theorem dissect_encodeHeader (h : AHeader) (payload : Bytes) (hwf : wfHeader h) 
   | some e =>
     simp only at he
     cases net with
-    | v4 h4 =>
-      have h2 := dissectNet_enc (expEth e 0x0800) (.v4 h4) trans payload hn ht hp
+    | v4 h4 opts =>
+      have h2 := dissectNet_enc (expEth e 0x0800) (.v4 h4 opts) trans payload hn ht hp
       simp only at h2
       simp only [encodeHeader, protoOf, dissect, dissectEth, expectedPacket, ANet.etherType, List.append_assoc,
         decodeEthernet_encL e 0x0800 _ he (by decide) (by decide), ok_bind, if_true, h2,
